@@ -409,14 +409,42 @@ func (r *Rng) fill(v reflect.Value, o *ValOpts, depth int) {
 		if t.Key().Kind() == reflect.Ptr && n > 1 {
 			n = 1 // distinct pointers with equal text would be duplicate keys
 		}
-		m := reflect.MakeMapWithSize(t, n)
 		prefix := ""
 		if r.Chance(1, 3) {
 			prefix = "common_prefix_" // long common prefixes stress the radix sort
 		}
+		// integer keys that share a long decimal prefix (timestamps, sequential ids): every shared
+		// digit costs the radix sort of the keys one level of its recursion budget
+		cluster, base := false, uint64(0)
+		switch t.Key().Kind() {
+		case reflect.Int, reflect.Int64, reflect.Uint, reflect.Uint64, reflect.Uintptr, reflect.Int32, reflect.Uint32:
+			if n >= 2 && r.Chance(1, 2) {
+				cluster = true
+				base = []uint64{1700000000000000000, 1234567890120000, 170000000000, 2100000000}[r.Intn(4)]
+				if k := t.Key().Kind(); k == reflect.Int32 || k == reflect.Uint32 {
+					base = 2100000000
+				}
+				base += uint64(r.Intn(1000)) * 100000
+				if depth <= 3 && r.Chance(1, 3) {
+					n = []int{12, 13, 16, 20, 33, 100}[r.Intn(6)]
+				}
+			}
+		}
+		m := reflect.MakeMapWithSize(t, n)
 		for i := 0; i < n; i++ {
 			k := reflect.New(t.Key()).Elem()
 			r.fill(k, o, depth+1)
+			if cluster {
+				x := base + uint64(i)*uint64(1+r.Intn(9))
+				if k.CanInt() {
+					k.SetInt(int64(x))
+					if r.Chance(1, 4) {
+						k.SetInt(-int64(x))
+					}
+				} else {
+					k.SetUint(x)
+				}
+			}
 			if k.Kind() == reflect.String && k.Type() != tNumber {
 				ks := prefix + k.String()
 				if n > 1 {
